@@ -6,7 +6,8 @@
 (*          must not change the answer) - it must be Suggest(sizes);       *)
 (*   "step" events: one Add of a real single-writer workload: the size     *)
 (*          vector before auto-compaction, the stack depth before/after,   *)
-(*          the cumulative number of entries written by compaction.        *)
+(*          the cumulative number of entries written by compaction;        *)
+(*   "staleauto" events: AutoCompact through a handle that is out of date. *)
 (***************************************************************************)
 EXTENDS Compaction, Json
 
@@ -40,7 +41,14 @@ TStep ==
         \cup Fail(E.n < 2 \/ ~E.uniform \/ E.written <= E.n * CeilLog2(E.n) * E.per, "C17_RewriteBound")
   /\ l' = l + 1 /\ UNCHANGED tr
 
+(* AutoCompact through a second handle whose view is out of date: the range it would pick was chosen for sizes that are no     *)
+(* longer there, so nothing may be merged (and the call does not fail)                                                         *)
+TStaleAuto ==
+  /\ l <= Len(Ev) /\ E.op = "staleauto"
+  /\ fails' = Fail(E.res = "ok", "C17_StaleAutoCompact") \cup Fail(~E.stale \/ ~E.changed, "C17_StaleAutoCompact")
+  /\ l' = l + 1 /\ UNCHANGED tr
+
 TDone == l > Len(Ev) /\ UNCHANGED vars
-TSpec == TInit /\ [][TVec \/ TStep \/ TDone]_vars
+TSpec == TInit /\ [][TVec \/ TStep \/ TStaleAuto \/ TDone]_vars
 T_All == fails = {} \/ (PrintT(<<"VIOL", fails, Traces[tr].id, l - 1>>) /\ FALSE)
 =============================================================================
